@@ -28,7 +28,7 @@ theorem lraL_aliasVals (o : Oracles) (env : Env) (fn : RangeFn) (d : Nat) (hd : 
       [("timestamp_ns", .int (bucketOf d e.ts)), ("fingerprint", .int e.fp), ("string", .str [])] := by
   have hd0 : d ≠ 0 := by omega
   cases fn <;> cases j <;>
-    simp [lraColsL, lraCols, aliasVals, hasAgg, aggNames, lraValue, countF, bytesF, secLit, bucketCol, simpleCol, emptyStr, evalE,
+    simp [lraColsL, lraCols, aliasVals, hasAgg, aggNames, lraValue, perSecond, countF, bytesF, bucketCol, simpleCol, emptyStr, evalE,
       evalEs, qualify, rowSN, vNull, Row.get, List.lookup, mulVal, bucketOf, hd0]
 
 theorem qrow_get (j : Bool) (e : EntryX) :
@@ -45,7 +45,7 @@ theorem lraL_scope (o : Oracles) (env : Env) (fn : RangeFn) (d : Nat) (hd : 0 < 
   unfold scope
   rw [lraL_aliasVals o env fn d hd]
 
-theorem lraL_group_row (o : Oracles) (env : Env) (fn : RangeFn) (d : Nat) (hms : 1000000 ∣ d) (hd : 0 < d) (j : Bool)
+theorem lraL_group_row (o : Oracles) (env : Env) (fn : RangeFn) (d : Nat) (hd : 0 < d) (j : Bool)
     (k : Int × Int) (grp : List EntryX) (e0 : EntryX) (rest : List EntryX) (hg : grp = e0 :: rest)
     (hk : lraKeyX d e0 = k) :
     grow o env (lraColsL fn d) (grp.map (fun e => qualify "time_series" (rowSN j "_string" vNull e))) =
@@ -61,7 +61,7 @@ theorem lraL_group_row (o : Oracles) (env : Env) (fn : RangeFn) (d : Nat) (hms :
       intro e _
       rw [lraL_aliasVals o env fn d hd]
       have := (qrow_get j e).2.2.2
-      simp [Row.get_cons, this, EntryX.toSample]) hms hd
+      simp [Row.get_cons, this, EntryX.toSample]) hd
   subst hg
   have hk1 : e0.fp = k.1 := by rw [← hk]; rfl
   have hk2 : bucketOf d e0.ts = k.2 := by rw [← hk]; rfl
@@ -80,7 +80,7 @@ theorem lraL_group_row (o : Oracles) (env : Env) (fn : RangeFn) (d : Nat) (hms :
 /-- **range stage (LRAPlanner with labels).** Over the entries of `agg_a` (the last run, line column renamed), the select
     returns one row per (series, range bucket) in order of first occurrence: the range function of the direct reading over
     the bucket's entries, and the labels of the series. -/
-theorem lraL_eval (o : Oracles) (db : Db) (env : Env) (fn : RangeFn) (d : Nat) (hms : 1000000 ∣ d) (hd : 0 < d) (j : Bool)
+theorem lraL_eval (o : Oracles) (db : Db) (env : Env) (fn : RangeFn) (d : Nat) (hd : 0 < d) (j : Bool)
     (E : List EntryX) (hA : env.lookup (.named "agg_a") = some (E.map (rowSN j "_string" vNull)))
     (hv : Option Expr) :
     evalBodyA o db env (lraBodyL fn d hv) = havingFilter o env hv ((lraPtsX fn d E).map lraRowL) := by
@@ -104,7 +104,7 @@ theorem lraL_eval (o : Oracles) (db : Db) (env : Env) (fn : RangeFn) (d : Nat) (
   intro g hg
   obtain ⟨⟨e0, rest, hgr, hk0⟩, _⟩ := groupsBy_head (lraKeyX d) E g hg
   simp only [Function.comp_apply]
-  exact lraL_group_row o env fn d hms hd j g.1 g.2 e0 rest hgr hk0
+  exact lraL_group_row o env fn d hd j g.1 g.2 e0 rest hgr hk0
 
 theorem lraRowL_rep (pts : List Pt) : Rep (pts.map lraRowL) pts := by
   apply rep_of_map
@@ -197,7 +197,7 @@ theorem named_notin_srcWiths {o : Oracles} {c : MCtx} {d : LokiDb} {r : RangeAgg
     one per (series of the rewritten label set, range bucket), with the labels of the series. -/
 theorem lraXPhase_ok (o : Oracles) (c : MCtx) (hn : c.namesOk) (d : LokiDb) (r : RangeAggX) (hm : r.sel.matchers.length ≤ 63)
     (fn : RangeFn) (hk : r.kind = .lra fn) (ch : Changer) (more : List StageX) (hpost : r.post = .ch ch :: more)
-    (hms : 1000000 ∣ r.durNs) (hd : 0 < r.durNs) :
+    (hd : 0 < r.durNs) :
     ∃ n, (runsSource c.toCtx r).id = (labelConds r.sel).length + n ∧
       PStage o c d r.sel (optCmp r.cmp (lraSel fn r.durNs true (runsSource c.toCtx r).sel))
         (cmpStage r.cmp (lraPtsX fn r.durNs (entriesX o c.toCtx d r)))
@@ -232,7 +232,7 @@ theorem lraXPhase_ok (o : Oracles) (c : MCtx) (hn : c.namesOk) (d : LokiDb) (r :
         (entriesX o c.toCtx d r)) = (entriesX o c.toCtx d r).map (rowSN src'.isNone "_string" vNull) := by
       cases rlast.isCh <;> rfl
     rw [hrows']
-    rw [lraL_eval o (d.toDbM c) _ fn r.durNs hms hd src'.isNone (entriesX o c.toCtx d r) (by simp [List.lookup])]
+    rw [lraL_eval o (d.toDbM c) _ fn r.durNs hd src'.isNone (entriesX o c.toCtx d r) (by simp [List.lookup])]
     exact having_rep o _ r.cmp _ _ (lraRowL_rep _)
 
 
